@@ -99,6 +99,7 @@ def gen_case(rng, tier, index):
         passes.append(regs)
     case["passes"] = passes
     case["driver"] = rng.choice(["ctx", "pm"])
+    case["own_function_analysis"] = rng.random() < 0.25
     return case
 
 
@@ -237,6 +238,13 @@ def run_case(case):
         if case["driver"] == "ctx":
             fns = gtirb_functions.Function.build_functions(m) \
                 if "functionEntries" in m.aux_data else []
+            if fns and case.get("own_function_analysis"):
+                # the caller's own function objects are what counts, also
+                # when the module's tables do not (any longer) say the same
+                for tname in ("functionBlocks", "functionEntries",
+                              "functionNames"):
+                    m.aux_data.pop(tname, None)
+                ctr["own_function_analysis"] = 1
             ctx = RewritingContext(m, fns)
             base = 0
             for regs in case["passes"]:
